@@ -95,6 +95,35 @@ var faultContexts = []faultContext{
 	{"in-iir", "[1, 2, 3].iir(e -> e, (e, l) -> l + %s).last()", false, false, ""},
 	{"in-visit", "[1, 2, 3].visit(0, (v, e) -> v + %s)", false, false, ""},
 	{"in-list-literal-index", "[1, %s, 3][0]", false, false, ""},
+	// the fault sits in a lazy list that is an operand of a comparison (which evaluates it, on whatever goroutine it likes)
+	{"in-eq-right-operand", "if [1, 2, 3] = [1, 2, 3].number((n, e) -> e + %s) then 1 else 2", false, false, ""},
+	{"in-eq-left-operand", "if [1, 2, 3].number((n, e) -> e + %s) = [1, 2, 3] then 1 else 2", false, false, ""},
+	{"in-eq-right-operand-in-try", "try (if [1, 2, 3] = [1, 2, 3].combine((p, r) -> p + %s) then 1 else 2) catch 0 - 99", true, false, ""},
+	{"in-ne-right-operand", "if [1, 2, 3] != [1, 2, 3].iir(e -> e, (e, l) -> l + %s) then 1 else 2", false, false, ""},
+	{"in-tilde-right-operand", "if 2 ~ [1, 2, 3].number((n, e) -> e + %s) then 1 else 2", false, false, ""},
+	{"in-tilde-left-list-operand", "if [1, 2].number((n, e) -> e + %s) ~ [1, 2, 3] then 1 else 2", false, false, ""},
+	{"in-switch-case-list", "switch [1, 2, 3] case [1, 2, 3].number((n, e) -> e + %s) : 1 default 2", false, false, ""},
+	{"in-switch-value-list", "switch [1, 2, 3].number((n, e) -> e + %s) case [1, 2, 3] : 1 default 2", false, false, ""},
+	{"in-nested-eq-operand", "if {k: [1, 2]} = {k: [1, 2].number((n, e) -> e + %s)} then 1 else 2", false, false, ""},
+	{"in-groupByEqual-key", "[1, 2, 3].groupByEqual(e -> [e].number((n, x) -> x + %s)).size()", false, false, ""},
+	// the fault is an item of a lazy list that flows through a further stage: every stage hands it on
+	{"upstream-of-accept", "[1, 2, 3].map(e -> e + %s).accept(e -> e >= 0).size()", false, false, ""},
+	{"upstream-of-accept-in-try", "try [1, 2, 3].number((n, e) -> e + %s).accept(e -> e >= 0).size() catch 0 - 99", true, false, ""},
+	{"upstream-of-map", "[1, 2, 3].number((n, e) -> e + %s).map(e -> e + 1).size()", false, false, ""},
+	{"upstream-of-top", "[1, 2, 3].map(e -> e + %s).top(2).size()", false, false, ""},
+	{"upstream-of-skip", "[1, 2, 3].map(e -> e + %s).skip(1).size()", false, false, ""},
+	{"upstream-of-number", "[1, 2, 3].map(e -> e + %s).number((n, e) -> e).size()", false, false, ""},
+	{"upstream-of-combine", "[1, 2, 3].map(e -> e + %s).combine((p, r) -> p).size()", false, false, ""},
+	{"upstream-of-iir", "[1, 2, 3].map(e -> e + %s).iir(e -> e, (e, l) -> l).size()", false, false, ""},
+	{"upstream-of-compact", "[1, 2, 3].map(e -> e + %s).compact((p, r) -> false).size()", false, false, ""},
+	{"upstream-of-concat", "([1, 2, 3].map(e -> e + %s) + [4]).size()", false, false, ""},
+	{"upstream-of-append", "[1, 2, 3].map(e -> e + %s).append(4).size()", false, false, ""},
+	{"upstream-of-reverse", "[1, 2, 3].map(e -> e + %s).reverse().size()", false, false, ""},
+	{"upstream-of-order", "[1, 2, 3].map(e -> e + %s).order(e -> e).size()", false, false, ""},
+	{"upstream-of-cross-inner", "[1, 2].cross([1, 2, 3].map(e -> e + %s), (p, r) -> p).size()", false, false, ""},
+	{"upstream-of-parallel-accept", "numbers(40).map(e -> if e = 30 then %s else e).accept(e -> slow(e) >= 0).size()", false, true, ""},
+	{"upstream-of-groupBy", "[1, 2, 3].map(e -> e + %s).groupByInt(e -> e).size()", false, false, ""},
+	{"upstream-of-multiUse", "[1, 2, 3].map(e -> e + %s).multiUse({s: l -> l.size(), t: l -> l.sum()}).s", false, false, ""},
 	// the value that failed is used again (whatever the first failure left behind - a lock, a half-filled cache - the second use
 	// ends, with the error again)
 	{"lazy-number-stage-used-twice-in-try", "let q = [1, 2, 3].number((n, e) -> e + %s); try q.size() catch e -> (try q.size() catch 0 - 99)", true, false, ""},
